@@ -94,7 +94,8 @@ Proof.
   intros c glo gs mu x H. unfold spec_extend in H.
   apply in_flat_map in H. destruct H as [g [_ H]]. apply in_flat_map in H. destruct H as [t [_ H]].
   destruct (spec_row c glo t) as [r|] eqn:E; [|destruct H].
-  destruct (compat_equiv mu r) eqn:C; [|destruct H]. destruct H as [<-|[]]. exists t, r. auto.
+  destruct (row_bounds_ok c mu t && compat_equiv mu r) eqn:C0; [|destruct H]. destruct H as [<-|[]].
+  apply andb_prop in C0. destruct C0 as [_ C]. exists t, r. auto.
 Qed.
 
 Lemma spec_extend_keys : forall c glo gs mu bs x, d3c c -> keys_in bs mu -> In x (spec_extend c glo gs mu) ->
@@ -235,7 +236,7 @@ Section Step.
       destruct (get mu k) eqn:G; [|reflexivity]. exfalso. apply (Hdis k); [congruence|].
       eapply spec_row_keys; eauto. apply keys_get. apply in_map_iff. exists (k, w). auto. }
     assert (C0 : compat_equiv [] r = true) by (apply compatible_nil).
-    rewrite C1, C0. cbn -[merge_rows]. rewrite merge_nil_l. reflexivity.
+    rewrite C1, C0, !(rbo_true c _ t D). cbn -[merge_rows]. rewrite merge_nil_l. reflexivity.
   Qed.
 
   Definition inv (bs : list str) (mus : list row) : Prop := forall mu, In mu mus -> keys_in bs mu.
